@@ -891,6 +891,16 @@ func (obj *Package) DefLambda(name string, lam *Lambda, fc func(args List) Objec
 		xlam.Forms = lam.Forms
 		xlam.Closure = lam.Closure
 		xlam.Macro = lam.Macro
+		// Calls created from now on must bind to the registered lambda as
+		// well, it is the one a later redefinition updates.
+		create := fc
+		fc = func(args List) Object {
+			f := create(args)
+			if d, ok := f.(*Dynamic); ok {
+				d.Self = xlam
+			}
+			return f
+		}
 	} else {
 		obj.lambdas[name] = lam
 	}
